@@ -37,7 +37,7 @@ THOROUGH_SHAPES = QUICK_SHAPES + [(0,), (3,), (1, 2), (2, 2), (1, 1, 1), (0, 1),
 class Ctx:
     def __init__(self, prog):
         self.prog = prog
-        self.I = MI.Interp(prog, models=[self.models, CM.container_models, MM.hof_models, MM.abs_models, MM.core_models], unroll=8)
+        self.I = MI.Interp(prog, models=[self.models, CM.map_models, CM.container_models, MM.hof_models, MM.abs_models, MM.core_models], unroll=8)
         self.I.enum_tables.update(MM.ENUM_TABLE_EXTRA)
         self.I.prune = True
         self.db = symval.TypeDB([os.path.join(core.REPO, "mithril-stm", "src")])
@@ -109,6 +109,17 @@ class Ctx:
             ok = self.ufun("bls_batch_verify_%d" % len(msgs.fields), len(flat))(*flat)
             st.trace = st.trace + (("batch_verify_aggregates", tuple(flat), ok),)
             return MM.ret(st, EnumV("Result", z3.If(ok, 0, 1), {0: (MI.UNIT,), 1: (Opaque("BlsError"),)}))
+        m = re.match(r"^<(.*) as Iterator>::sum::<(.*)>$", f)
+        if m and isinstance(args[0], Agg) and args[0].kind == "iter":
+            # BLS group addition of keys / signatures without coefficients: an uninterpreted function of the summands, distinct from `aggregate`
+            outs = []
+            for s2, items in CM.drain(I, st.fork(), caller, args[0]):
+                vals = [MM.deref_all(I, s2, x) for x in items]
+                if not vals or not all(isinstance(v, Abs) for v in vals):
+                    raise Unencodable("Iterator::sum over non-abstract values")
+                fn = self.ufun("bls_plain_sum_%s" % vals[0].sort, len(vals), z3.IntSort())
+                outs.append(Outcome("return", Abs(vals[0].sort, fn(*[v.term for v in vals])), s2))
+            return outs
         if re.match(r"^<.* as (Clone|ToOwned)>::(clone|to_owned)$", f):
             return MM.ret(st, MM.deref_all(I, st, args[0]))
         if re.match(r"^<Vec<u8> as Deref>::deref$", f) and isinstance(MM.deref_all(I, st, args[0]), Abs):
@@ -341,9 +352,13 @@ def run(tier, seed):
         native = {}
         reproduced = False
         try:
-            if name == "index_below_m":
-                native["index_at_m"] = native_stm("index_at_m")
-                reproduced = native["index_at_m"].startswith("accepted")
+            scen = {"index_below_m": "index_at_m", "distinct": "cross_dup", "quorum": "cross_dup", "leaves_committed": "uncommitted_leaf",
+                    "index_won_by_own_signature_and_stake": "uncommitted_leaf", "batch_pairing": "batch_swap", "bls_aggregate_check": "batch_swap"}.get(name)
+            if scen:
+                # run the whole battery of forged aggregates through the public API: any acceptance is a native reproduction
+                for q in ("index_at_m", "cross_dup", "uncommitted_leaf", "batch_swap"):
+                    native[q] = native_stm(q)
+                reproduced = "accepted" in native[scen].replace("alone=accepted", "")
             else:
                 native["note"] = "no native scenario for this clause; structural counterexample only"
         except Exception as e:
